@@ -7,6 +7,7 @@ import (
 
 	"pgregory.net/rapid"
 
+	"github.com/oasisprotocol/oasis-core/go/common/crypto/hash"
 	"github.com/oasisprotocol/oasis-core/go/storage/mkvs"
 	dbApi "github.com/oasisprotocol/oasis-core/go/storage/mkvs/db/api"
 	"github.com/oasisprotocol/oasis-core/go/storage/mkvs/node"
@@ -21,6 +22,8 @@ import (
 type hookDB struct {
 	dbApi.NodeDB
 	hook func()
+	// afterNewBatch runs right after the next batch has been created (before the tree is traversed).
+	afterNewBatch func()
 }
 
 type hookBatch struct {
@@ -32,6 +35,10 @@ func (d *hookDB) NewBatch(oldRoot node.Root, version uint64, chunk bool) (dbApi.
 	b, err := d.NodeDB.NewBatch(oldRoot, version, chunk)
 	if err != nil {
 		return nil, err
+	}
+	if h := d.afterNewBatch; h != nil {
+		d.afterNewBatch = nil
+		h()
 	}
 	return &hookBatch{Batch: b, db: d}, nil
 }
@@ -182,6 +189,93 @@ func TestC06Interleaved(t *testing.T) {
 				parent = finalized[v]
 				continue // (finalized inside the previous window)
 			}
+			if rapid.IntRange(0, 3).Draw(t, "abandonedBatch") == 0 {
+				// ---- a batch that is ABANDONED: a commit towards a known root that does not match (what a node does with a
+				// write log that does not lead to the announced root). Between the creation of its batch and its failure a
+				// first candidate of the version is committed; two more follow afterwards; one of the three is finalized.
+				xOps, _ := genOps(parent.model, fmt.Sprintf("x%d", v), nil)
+				aOps, aModel := genOps(parent.model, fmt.Sprintf("a%d", v), xOps)
+				var cands []*fin
+				commitCand := func(ops []op, m kv.Model, tag string) {
+					tr := open(real, parent.root)
+					defer tr.Close()
+					if err := apply(tr, ops); err != nil {
+						fail("candidate-unwritable", "writing candidate %s of version %d: %v", tag, v, err)
+					}
+					if _, h, err := tr.Commit(ctx, kv.Namespace, v); err == nil {
+						if want := kv.RefRoot(m); h != want {
+							fail("root-not-reference", "candidate %s of version %d: committed root %s, reference %s", tag, v, h, want)
+						}
+						cands = append(cands, &fin{root: kv.Root(v, node.RootTypeState, h), model: m})
+						trace = append(trace, fmt.Sprintf("v%d candidate %s -> %s", v, tag, h.String()[:8]))
+					} else {
+						trace = append(trace, fmt.Sprintf("v%d candidate %s refused: %v", v, tag, err))
+					}
+				}
+				xt := open(hdb, parent.root)
+				if err := apply(xt, xOps); err != nil {
+					fail("candidate-unwritable", "writing the abandoned candidate of version %d: %v", v, err)
+				}
+				hdb.afterNewBatch = func() { commitCand(aOps, aModel, "A (inside the abandoned batch's life time)") }
+				var bogus hash.Hash
+				bogus.FromBytes([]byte(fmt.Sprintf("not the root of version %d", v)))
+				_, aerr := xt.CommitKnown(ctx, kv.Root(v, node.RootTypeState, bogus))
+				hdb.afterNewBatch = nil
+				xt.Close()
+				if aerr == nil {
+					fail("apply-accepts-wrong-root", "CommitKnown towards a root that the contents do not hash to succeeded (version %d)", v)
+				}
+				trace = append(trace, fmt.Sprintf("v%d: batch abandoned (%v)", v, firstWordsI(aerr.Error(), 6)))
+				for i, n := 0, rapid.IntRange(1, 2).Draw(t, "afterAbandon"); i < n; i++ {
+					ops, m := genOps(parent.model, fmt.Sprintf("c%d.%d", v, i), aOps)
+					commitCand(ops, m, fmt.Sprintf("C%d (after the abandoned batch)", i))
+				}
+				if len(cands) == 0 {
+					rec.Discard("no-candidate-committed")
+					return
+				}
+				// every committed candidate reads back its own contents before finalization ...
+				for _, c := range cands {
+					if d := readBack(c.root, c.model); d != "" {
+						fail("pending-root-wrong-contents", "candidate %s of version %d (not finalized yet) reads back wrongly after an abandoned batch: %s", c.root.Hash.String()[:8], v, d)
+					}
+				}
+				w := cands[rapid.IntRange(0, len(cands)-1).Draw(t, "winnerAfterAbandon")]
+				if err := real.Finalize([]node.Root{w.root}); err != nil {
+					fail("finalize-refused", "Finalize(v%d): %v", v, err)
+				}
+				finalized[v] = w
+				trace = append(trace, fmt.Sprintf("v%d: finalized %s", v, w.root.Hash.String()[:8]))
+				rec.Label("abandoned-batch-window")
+				nontrivial = true
+				// ... and the finalized one afterwards; where write logs are kept, the log served for the transition leads there
+				checkAll(fmt.Sprintf("after Finalize(v%d) following an abandoned batch", v))
+				if it, err := real.GetWriteLog(ctx, parent.root, w.root); err == nil {
+					got := parent.model.Clone()
+					for {
+						more, err := it.Next()
+						if err != nil || !more {
+							break
+						}
+						e, err := it.Value()
+						if err != nil {
+							break
+						}
+						if e.Value == nil {
+							delete(got, string(e.Key))
+						} else {
+							got[string(e.Key)] = e.Value
+						}
+					}
+					if !got.Equal(w.model) {
+						fail("served-log-wrong", "the write log served for version %d (%s -> %s) after an abandoned batch does not lead to the finalized contents", v, parent.root.Hash.String()[:8], w.root.Hash.String()[:8])
+					}
+					rec.Label("abandoned-batch-window:write-log-served")
+				}
+				fp = append(fp, "abandoned", w.root.Hash.String())
+				parent = finalized[v]
+				continue
+			}
 			slowOps, slowModel := genOps(parent.model, fmt.Sprintf("s%d", v), nil)
 			fastOps, fastModel := genOps(parent.model, fmt.Sprintf("f%d", v), slowOps)
 			slow := open(hdb, parent.root)
@@ -288,4 +382,18 @@ func TestC06Interleaved(t *testing.T) {
 		}
 		rec.Case(nontrivial, ev.Fingerprint(append(fp, backend)...), sample)
 	})
+}
+
+func firstWordsI(s string, n int) string {
+	out, words := "", 0
+	for _, c := range s {
+		if c == ' ' {
+			words++
+			if words >= n {
+				break
+			}
+		}
+		out += string(c)
+	}
+	return out
 }
